@@ -64,6 +64,8 @@ FUNCS = {
                                                       'Mahotas.cscalar_uf_join_eq_model'],
                        words=['labelModel', 'labelAddr', 'scanPixel', 'scanPixelAddr', 'parentsAddr'], defined_in='C03.lean',
                        targets=['uf_find', 'uf_compress', 'uf_join']),
+    'fast_row': dict(tie=T + 'FastRow', theorems=['Mahotas.cscalar_fast_row_dy_eq_model', 'Mahotas.cscalar_fast_row_n_eq_model'],
+                     words=['fastRow', 'fastErodeRow'], defined_in='C01.lean', targets=['fast_row_dy', 'fast_row_n']),
     'rank_currank': dict(tie=T + 'CurRank', theorems=['Mahotas.cscalar_rank_currank_eq_model'],
                          words=['curRankG'], defined_in='C07.lean', targets=['rank_currank']),
     'find2d_marks': dict(tie=T + 'Find2d', theorems=['Mahotas.cscalar_find2d_marks_eq_model'],
@@ -245,6 +247,14 @@ def _unit(srcs: dict) -> str:
         s.append('extern "C" long cs_uf(int which, int n, const long* in, long i, long j, long* out) { std::vector<int> d(in, in + n); d.push_back(0); long r = 0; '
                  'if (which == 0) r = find(&d[0], (int)i);' + (' else if (which == 1) compress(&d[0], (int)i);' if 'uf_compress' in have else '') +
                  (' else join(&d[0], (int)i, (int)j);' if 'uf_join' in have else '') + ' for (int k = 0; k < n; ++k) out[k] = d[k]; return r; }')
+    if 'fast_row_n' in have:
+        s.append('#include <vector>')
+        s.append('namespace {')
+        s += srcs['fast_row_n'].get('helpers', [])
+        s.append('}')
+        s.append('extern "C" long cs_fast_row(long which, long y_, long Ny_, long Nx_, long pdy, long pdx) { const numpy::index_type y = y_, Ny = Ny_, Nx = Nx_; '
+                 'std::vector<numpy::index_type> positions; positions.push_back(pdy); positions.push_back(pdx); const numpy::index_type j = 0; '
+                 + srcs['fast_row_n']['slice'] + ' return which ? n : dy; }')
     if 'rank_currank' in have:
         s.append('extern "C" long cs_rank_currank(long n, long N2, long rank) { ' + srcs['rank_currank']['slice'] + ' return currank; }')
     if 'find2d_marks' in have or 'find2d_accesses' in have:
@@ -293,7 +303,7 @@ def _unit(srcs: dict) -> str:
 GROUPS = [['fix_offset'], ['t_abs'], ['subm_elem'], ['margin_of'], ['erode_sub', 'erode_sub_bool'], ['dilate_add', 'dilate_add_bool'],
           ['isLeft'], ['forward_cmp'], ['reverse_cmp'], ['at_flat'], ['pos_to_flat'], ['flat_to_pos'],
           ['sum_rect', 'csum_rect', 'haar_x', 'haar_y'], ['roll_right', 'lbp_map'], ['find2d_marks', 'find2d_accesses'],
-          ['spline_coeff'], ['rank_currank'], ['dt_intersect'], ['fast_positions'], ['uf_find', 'uf_compress', 'uf_join']]
+          ['spline_coeff'], ['rank_currank'], ['dt_intersect'], ['fast_positions'], ['uf_find', 'uf_compress', 'uf_join'], ['fast_row_n', 'fast_row_dy']]
 _LIB = {}
 _SRCS = None
 
@@ -437,6 +447,16 @@ def _real_rows_(case):
             r = f(which, n, D, ctypes.c_long(a[1]), ctypes.c_long(a[2] if len(a) > 2 else 0), O)
             arr = ','.join(str(O[k]) for k in range(n))
             out.append(f'{r};{arr}' if fn == 'uf_find' else arr)
+    elif fn in ('fast_row_dy', 'fast_row_n'):
+        f = lib.cs_fast_row
+        f.restype, f.argtypes = ctypes.c_long, [ctypes.c_long] * 6
+        for row in case['rows']:
+            if fn == 'fast_row_dy':
+                y, ny, pdy, pdx = row
+                out.append(str(f(0, y, ny, 1, pdy, pdx)))
+            else:
+                y, ny, nx, pdy, pdx = row
+                out.append(str(f(1, y, ny, nx, pdy, pdx)))
     elif fn == 'rank_currank':
         f = lib.cs_rank_currank
         f.restype, f.argtypes = ctypes.c_long, [ctypes.c_long] * 3
@@ -779,6 +799,17 @@ def _cases_uf(rng, tier):
     return [dict(fn=k, rows=ch, src='random') for k, rows in out.items() for ch in _chunks(rows, 600)]
 
 
+def _cases_fastrow(rng, tier):
+    """every row of images up to 6 rows x every offset -8 … 8 (beyond the image on both sides), widths 0 … 9"""
+    r1 = [[y, ny, dy, dx] for ny in range(1, 7) for y in range(ny) for dy in range(-8, 9) for dx in (-2, 0, 3)]
+    r2 = [[0, 1, nx, 0, dx] for nx in range(0, 10) for dx in range(-11, 12)]
+    for _ in range(300):
+        ny = rng.randint(1, 10 ** 6)
+        r1.append([rng.randint(0, ny - 1), ny, rng.randint(-2 * ny, 2 * ny), rng.randint(-5, 5)])
+        r2.append([0, 1, rng.randint(0, 10 ** 6), 0, rng.randint(-10 ** 6, 10 ** 6)])
+    return [dict(fn='fast_row_dy', rows=r1, src='exhaustive'), dict(fn='fast_row_n', rows=r2, src='exhaustive')]
+
+
 def _cases_currank(rng, tier):
     """every (n, N2, rank) with rank < N2 <= 12, n <= N2; random footprints up to 2^20 samples (n * rank below 2^53)"""
     rows = [[n, n2, r] for n2 in range(1, 13) for n in range(0, n2 + 1) for r in range(0, n2)]
@@ -791,6 +822,7 @@ def _cases_currank(rng, tier):
 GENERATORS = {
     'spline_coeff': _cases_spline,
     'rank_currank': _cases_currank,
+    'fast_row': _cases_fastrow,
     'union_find': _cases_uf,
     'fast_positions': _cases_fastpos,
     'dt_intersect': _cases_dt,
